@@ -12,6 +12,12 @@ pub mod name;
 
 pub mod result;
 
+/// Verification hook (only with `--cfg mamba_verif`): the import accumulator of the generator.
+#[cfg(mamba_verif)]
+pub mod verif_generate {
+    pub use super::convert::state::Imports;
+}
+
 #[derive(Default)]
 pub struct GenArguments {
     pub annotate: bool,
